@@ -67,6 +67,7 @@ theorem denote_op_dotMat (e : OpExpr) (hreg : e.RegNonneg = true) (o : Op) (h : 
     rw [Mat.get_ofFn, Mat.get_mul]
     by_cases hik : i < o.nRow ∧ k < x.nCol
     · simp only [hik, and_self, if_true]
+      rw [tab_getD, if_pos hik.2]
       rw [Op.matvec_eq_dense o _ hw (by simp [Mat.col, hx]), Mat.Eqv.mulVec he, Mat.vget_mulVec]
       apply sumTo_congr; intro j hj
       unfold Mat.col
